@@ -78,7 +78,7 @@ func evalC09(c *Ctx, gc GCase) string {
 		return ""
 	}
 	if err != nil {
-		return fmt.Sprintf("yaccgo's grammar tables are malformed: %v\n%s", err, gc.Text)
+		return adaptProblem(c, err, gc.Text)
 	}
 	c.Class("accepted")
 	g := b.A.G
